@@ -190,4 +190,64 @@ theorem importDecode_ok {c : Commit} {cm : PStr} {au msg : Option PStr} {impl : 
           obtain ⟨rfl, rfl⟩ := h
           exact ⟨k, by simp [encName, hr], decodeUsing_ok hd⟩
 
+
+theorem importExtra_unknown (strict : Bool) (k v : Bytes)
+    (hk : k ≠ bs "HG:rename-source" ∧ k ≠ bs "HG:extra") :
+    ∀ (extra : List (Bytes × Bytes)) (ls un : List Bytes), (k, v) ∈ extra →
+      importExtra strict extra = .ok (ls, un) → un ≠ []
+  | [], _, _, hm, _ => by simp at hm
+  | (k', v') :: rest, ls, un, hm, h => by
+    have hne : bs "HG:extra" ≠ bs "HG:rename-source" := by decide
+    simp only [List.mem_cons, Prod.mk.injEq] at hm
+    unfold importExtra at h
+    by_cases h1 : k' = bs "HG:rename-source"
+    · subst h1
+      have hmem : (k, v) ∈ rest := by
+        rcases hm with ⟨e, _⟩ | hm
+        · exact absurd e hk.1
+        · exact hm
+      simp only [if_true] at h
+      cases hr : importExtra strict rest with
+      | error e => simp [hr, bind, Except.bind] at h
+      | ok p =>
+        obtain ⟨ls', un'⟩ := p
+        have := importExtra_unknown strict k v hk rest ls' un' hmem hr
+        simp [hr, bind, Except.bind, pure, Except.pure] at h
+        rw [← h.2]; exact this
+    · by_cases h2 : k' = bs "HG:extra"
+      · subst h2
+        have hmem : (k, v) ∈ rest := by
+          rcases hm with ⟨e, _⟩ | hm
+          · exact absurd e hk.2
+          · exact hm
+        simp only [hne, if_false, if_true] at h
+        cases hr : importExtra strict rest with
+        | error e =>
+          split at h
+          · simp at h
+          · split at h <;> simp [hr, bind, Except.bind] at h
+        | ok p =>
+          obtain ⟨ls', un'⟩ := p
+          have := importExtra_unknown strict k v hk rest ls' un' hmem hr
+          split at h
+          · simp at h
+          · split at h
+            · simp at h
+            · simp [hr, bind, Except.bind, pure, Except.pure] at h
+              rw [← h.2]; exact this
+      · simp only [h1, h2, if_false] at h
+        cases hr : importExtra strict rest with
+        | error e => simp [hr, bind, Except.bind] at h
+        | ok p =>
+          obtain ⟨ls', un'⟩ := p
+          simp [hr, bind, Except.bind, pure, Except.pure] at h
+          rw [← h.2]; simp
+
+instance {ε α} [DecidableEq ε] [DecidableEq α] : DecidableEq (Except ε α) := fun a b =>
+  match a, b with
+  | .ok x, .ok y => if h : x = y then isTrue (by rw [h]) else isFalse (by intro e; cases e; exact h rfl)
+  | .error x, .error y => if h : x = y then isTrue (by rw [h]) else isFalse (by intro e; cases e; exact h rfl)
+  | .ok _, .error _ => isFalse (by intro e; cases e)
+  | .error _, .ok _ => isFalse (by intro e; cases e)
+
 end BreezyVerif.C34
